@@ -34,7 +34,7 @@ def slice(ctx: fw.Ctx) -> fw.Outcome:
     ins, dif = impl.enums()
     pending = []
 
-    def evaluate(c, be, real, nts, R, i, d, form, args, sb, eb, history=None, src=None):
+    def evaluate(c, be, real, nts, R, i, d, form, args, sb, eb, history=None, src=None, refiled=None):
         """make the call now (in this process state); the promise is computed afterwards, with tick bounds resolved by the
         model's hint-free query — never by asking the tempo map under test"""
         try:
@@ -51,7 +51,7 @@ def slice(ctx: fw.Ctx) -> fw.Outcome:
         wt = [g_.tick for g_ in tr_.groups] if tr_ is not None else []
         we = [g_.tick + gen.longest_truth(g_) for g_ in tr_.groups] if tr_ is not None else []
         pending.append(dict(x=x, has=bool(wt), wt=wt, we=we, args=args, R=R, i=i, d=d, form=form,
-                            sb=sb, eb=eb, history=history, res=src.res, tempo=list(src.tempo)))
+                            sb=sb, eb=eb, history=history, res=src.res, tempo=list(src.tempo), refiled=refiled))
 
     def settle():
         need = sorted({(p["res"], tuple(p["tempo"]), a) for p in pending for a in list(p["args"]) + p["wt"] + p["we"]
@@ -88,10 +88,13 @@ def slice(ctx: fw.Ctx) -> fw.Outcome:
             rp = {"op": "nps", "text": R.text, "i": i, "d": d, "start": sb, "end": eb}
             if p["history"]:
                 rp["history"] = p["history"]  # calls made earlier in the same process, replayed first
+            if p["refiled"]:
+                rp["refiled"] = p["refiled"]  # tracks filed under other keys of chart.instrument_tracks after the history's calls
             inside = isinstance(want, Fraction) and want > 0
             out.case(fw.h(rp), inside, {"call": [i, d, sb, eb], "value": x} if inside else None, tags=[form, "err" if x.startswith("E") else "value"])
-            reqs.append(f"nps {driver.cps(R.text)} {i} {d} {sb} {eb}")
-            meta.append((rp, x))
+            if not p["refiled"]:
+                reqs.append(f"nps {driver.cps(R.text)} {i} {d} {sb} {eb}")
+                meta.append((rp, x))
             if isinstance(want, str):
                 if x != want:
                     out.violation("nps-" + fw.h(rp), f"notes_per_second({i},{d},{sb},{eb}) = {x}, promised {want}", rp, observed=x, promised=want)
@@ -180,6 +183,27 @@ def slice(ctx: fw.Ctx) -> fw.Outcome:
             for ta, tb in ((u[0] + US, u[-1] - US), (u[0] + US, u[1] - US), (u[-1] + US, u[-1] + 5 * US), (u[0], u[0]), (max(u[0] - US, timedelta(0)), u[0])):
                 if tb >= ta:
                     evaluate(c, be, real, nts, R, i, d, "times", (ta, tb), f"u{ta // US}", f"u{tb // US}", src=src)
+        # the chart edited between queries: a track taken out of `chart.instrument_tracks` and filed under another instrument / difficulty
+        # (the container is public and plain). "The chosen track" is the one filed under the key now; the old key has none
+        if src.tracks and k_ % 3 == 0:
+            import copy
+            tr0 = rng.choice(src.tracks)
+            free = [(i_, d_) for i_ in range(10) for d_ in range(4) if (i_, d_) not in {(t_.inst, t_.diff) for t_ in src.tracks}]
+            i2, d2 = rng.choice(free)
+            hist = [{"text": R.text, "i": tr0.inst, "d": tr0.diff, "start": "~", "end": "~"}]
+            try:
+                c.notes_per_second(ins[tr0.inst], dif[tr0.diff])
+            except ValueError:
+                pass
+            move = [tr0.inst, tr0.diff, i2, d2]
+            refile(c, [move])
+            src3 = copy.deepcopy(src)
+            next(t_ for t_ in src3.tracks if (t_.inst, t_.diff) == (tr0.inst, tr0.diff)).__dict__.update(inst=i2, diff=d2)
+            for (i, d) in ((tr0.inst, tr0.diff), (i2, d2)):
+                evaluate(c, be, None, [], R, i, d, "refiled", (), "~", "~", history=hist, src=src3, refiled=[move])
+                tk = [g_.tick for g_ in tr0.groups] or [0]
+                a, b = min(tk), max(tk) + 1
+                evaluate(c, be, None, [], R, i, d, "refiled", (a, b), f"t{a}", f"t{b}", history=hist, src=src3, refiled=[move])
         # the same tick bounds on a twin chart (same notes, every tempo doubled) in the same process: an answer remembered
         # from the first chart would be wrong here
         if tick_calls:
@@ -203,13 +227,36 @@ def slice(ctx: fw.Ctx) -> fw.Outcome:
     return out
 
 
-def replay(ctx, data):
-    for hcall in data.get("history", []):
-        replay(ctx, hcall)
-    c, e, _ = impl.parse(data["text"])
-    if c is None:
-        return True, impl.err_name(e)
+def refile(c, moves):
     ins, dif = impl.enums()
+    for i, d, i2, d2 in moves:
+        tr = c.instrument_tracks[ins[i]].pop(dif[d])
+        if not c.instrument_tracks[ins[i]]:
+            del c.instrument_tracks[ins[i]]
+        if ins[i2] not in c.instrument_tracks:
+            c.instrument_tracks[ins[i2]] = {}
+        c.instrument_tracks[ins[i2]][dif[d2]] = tr
+
+
+def replay(ctx, data):
+    ins, dif = impl.enums()
+    if data.get("refiled"):
+        # the earlier calls are made on this very chart, then the tracks are filed anew
+        c, e, _ = impl.parse(data["text"])
+        if c is None:
+            return True, impl.err_name(e)
+        for h_ in data.get("history", []):
+            try:
+                c.notes_per_second(ins[h_["i"]], dif[h_["d"]])
+            except ValueError:
+                pass
+        refile(c, data["refiled"])
+    else:
+        for hcall in data.get("history", []):
+            replay(ctx, hcall)
+        c, e, _ = impl.parse(data["text"])
+        if c is None:
+            return True, impl.err_name(e)
 
     def arg(s):
         if s == "~":
